@@ -276,20 +276,31 @@ static void store(Type *ty) {
     println("  mov %%rax, (%%rdi)");
 }
 
+// A NaN compares unequal to zero: after an unordered comparison
+// (ZF=PF=CF=1) clear ZF so that the callers' je/jne/sete/setne see "not zero".
+static void cmp_zero_unordered(void) {
+  println("  setp %%al");
+  println("  setne %%dl");
+  println("  or %%dl, %%al");
+}
+
 static void cmp_zero(Type *ty) {
   switch (ty->kind) {
   case TY_FLOAT:
     println("  xorps %%xmm1, %%xmm1");
     println("  ucomiss %%xmm1, %%xmm0");
+    cmp_zero_unordered();
     return;
   case TY_DOUBLE:
     println("  xorpd %%xmm1, %%xmm1");
     println("  ucomisd %%xmm1, %%xmm0");
+    cmp_zero_unordered();
     return;
   case TY_LDOUBLE:
     println("  fldz");
     println("  fucomip");
     println("  fstp %%st(0)");
+    cmp_zero_unordered();
     return;
   }
 
